@@ -417,7 +417,13 @@ class TaskShuffle(SimpleShuffle):
             if stage == (stages - 1) and npartitions == npartitions_input:
                 name = self._name
                 parts_out = self._partitions
-                _filter = parts_out if self._filtered else None
+                # the pieces of this stage are keyed by the stage digit of the
+                # output partition, not by the partition number itself
+                _filter = (
+                    sorted({inputs[p][stage] for p in parts_out})
+                    if self._filtered
+                    else None
+                )
             else:
                 name = f"stage-{stage}-{self._name}"
                 _filter = None
